@@ -37,7 +37,12 @@ CONFIG = {
              "deepcopy / namespace-scoped copy / clone) x a chain of 1-3 write/read hops over NEXUS {simple, "
              "preserve_spaces}, NeXML {cells, seqs}, PHYLIP {strict, relaxed, underscore pair, multispace} x {sequential, "
              "interleaved reader}, FASTA {wrap, no wrap}, each through as_string/get(data=) or write(file=)/get(file=); "
-             "ragged rows only for FASTA/NeXML.  Data sets: 1-3 namespaces "
+             "ragged rows only for FASTA/NeXML.  History: before a route derives from its source(s) (and before the "
+             "first hop otherwise) the matrix is optionally used 0-2 times (symbols_as_string/str/len of every "
+             "sequence, or written through a drawn format) and must be unchanged by that; in 40 % of the cases the "
+             "matrix read back last is used again, changed through the public sequence API (column deleted, column "
+             "appended, cell overwritten from its column) and written/read once more against the updated "
+             "expectation.  Data sets: 1-3 namespaces "
              "each with a tree list and/or a matrix, NEXUS with suppress_block_titles in {None, False} and NeXML.  "
              "Exhaustive: every symbol of every type as 1x1 and 2x1 matrix through every supported format variant.  "
              "Non-trivial = matrix with >= 1 non-fundamental symbol (continuous: >= 1 non-integral value), or a "
@@ -57,6 +62,10 @@ CONFIG = {
         "rows of unequal length are generated only for FASTA and NeXML (the other formats declare one NCHAR)",
         "continuous values are finite; equality is == on numbers (an int cell reads back as the equal float)",
         "tree and namespace-title labels in the data-set sub-check are simple (tree label quoting is C02's subject)",
+        "epilogue mutations keep the matrix meaningful: columns are deleted/appended only in rectangular matrices, "
+        "never deleted when the matrix carries character subsets (positions are the caller's business), an appended "
+        "column gets its own column definition over the alphabet of the copied cell, a cell is overwritten only with "
+        "a state of its own column",
         "every library call runs under lib/budget.py (3e6 library events): a call that does not terminate fails its "
         "clause instead of hanging the shard",
         "needs the NeXML attribute-quoting fix made for C02 (commit 363ecd66, cherry-picked into the C09 worktree): "
